@@ -18,6 +18,9 @@ CLAIMS = {
  'C05': dict(engine='netmc', ref='DESIGN.md §2, §5 C05', category='model_checking',
    text='Two or three connections share ONE real executor loop (local and remote mode). The adversary connection runs every script of a corpus (malformed and non-UTF-8 requests, truncation at chosen/every byte, client abort/RST/half-close, upstream refuse/timeout/unreachable/DNS failure/early close/garbage, all four proxy roles incl. a second keep-alive request) and, on top, every single injected I/O error (connect/send/recv) and every postponed peer action (d<=1 quick, d<=2 thorough, plus both orders of same-tick task completion); a canary connection started concurrently, 3 turns later and after the adversary, must be served exactly as when alone and run() must not return.',
    note=NETMC_NOTE, technique='stateless model checking of the implementation with exhaustive single/double fault injection at every SUT I/O call'),
+ 'C08': dict(engine='netmc', ref='DESIGN.md §2, §5 C08',
+   text='Configured credentials x request kinds (GET, POST with body, CONNECT, credentials before Host) x a Proxy-Authorization grammar (10 token mutations x 8 schemes x 4 separators x 4 header-name casings, duplicated lines, look-alike headers) x packings (whole, cut inside the header, per byte) x {no plugin, recording plugin loaded after auth} x second request with/without credentials are executed on the real executor. An independent predicate decides accept/reject (ambiguous spellings may go either way); rejected: h11-valid 407 then end-of-stream, empty connect/DNS log, no origin byte, no request hook of the later plugin; accepted: served and no origin ever receives a Proxy-Authorization line on the first or second request.',
+   note=NETMC_NOTE + ' d=0 (input and configuration enumeration).', technique='exhaustive small-scope enumeration of inputs and configurations executed on the real event loop, reference predicate + h11 as oracle'),
  'C10': dict(engine='netmc', ref='DESIGN.md §2, §5 C10', category='model_checking',
    text='For every history of the C05 corpus (all roles, every abort kind, connect failures, protocol errors) once and three times in a row, for idle-timeout histories under the virtual clock, and for every single injected I/O error / postponed peer action on top, the state at quiescence (executor still running, after gc.collect()) is inspected: /proc/self/fd minus harness descriptors equals the snapshot before the first connection, and works / registered events / unfinished tasks / selector map are back to empty.',
    note=NETMC_NOTE + ' A socket closed only by the cyclic GC counts as released.', technique='stateless model checking of the implementation with fault enumeration and a kernel-object census at quiescence'),
